@@ -1597,6 +1597,8 @@ FROM (
         if target_type_str == "Integer":
             if source_lower in ("boolean", "integer"):
                 return f"CAST({expr} AS {duckdb_type})"
+            if source_lower == "string":
+                return f"vtl_string_to_integer({expr})"
             return f"CAST(TRUNC(CAST({expr} AS DOUBLE)) AS {duckdb_type})"
 
         if target_type_str == "String" and source_lower in ("time_period", "timeperiod"):
